@@ -22,8 +22,10 @@ def cases(tier, seed):
     for ch in ("bsc", "bec", "z"):
         for p in PS:
             for alpha in ("01", "pm1"):
-                for dt in ("float32", "float64", "float16", "bfloat16", "int64", "bool"):
-                    if dt == "bool" and alpha == "pm1":
+                for dt in ("float32", "float64", "float16", "bfloat16", "int64", "bool", "uint8", "int8", "int32"):
+                    if dt in ("bool", "uint8") and alpha == "pm1":
+                        continue
+                    if dt in ("uint8", "int8", "int32") and p not in (0, 0.1, 1):      # the narrow integer types: extremes and one interior value
                         continue
                     yield f"C12|{ch}|p={p},{alpha},{dt}", {"ch": ch, "p": p, "alpha": alpha, "dt": dt, "Ls": Ls}
 
